@@ -41,3 +41,44 @@ pub fn grow_model(
         ))
     }
 }
+
+/// Sizes (in bytes) the current harness is allowed to allocate; written with constants at the
+/// start of a harness (by `arena::mk_map` and friends) so that symex folds the reads.
+pub static mut ALLOC_SIZES: [usize; 6] = [0; 6];
+
+pub fn allow_alloc(slot: usize, bytes: usize) {
+    unsafe {
+        ALLOC_SIZES[slot] = bytes;
+    }
+}
+
+/// Allocation model used together with the growth cut: every heap object has a *constant* size.
+/// A request whose size symex can fold to one of the sizes announced by the harness is served
+/// exactly; a request of any other size is a checked bound violation. Without this, an (infeasible)
+/// path through `RawVecInner::finish_grow`'s `allocate` branch on which CBMC cannot fold the
+/// capacity creates an object of symbolic size, and the array-theory post-processing explodes.
+pub fn alloc_ladder(layout: Layout, _zeroed: bool) -> Result<NonNull<[u8]>, AllocError> {
+    let size = layout.size();
+    if size == 0 {
+        return Ok(NonNull::slice_from_raw_parts(layout.dangling_ptr(), 0));
+    }
+    // hand-unrolled (no loop: the harness-wide unwind bound must not depend on this stub)
+    macro_rules! slot {
+        ($i:literal) => {
+            let k = unsafe { ALLOC_SIZES[$i] };
+            if k != 0 && size == k {
+                let p = unsafe { std::alloc::alloc(Layout::from_size_align_unchecked(k, 8)) };
+                return Ok(NonNull::slice_from_raw_parts(unsafe { NonNull::new_unchecked(p) }, k));
+            }
+        };
+    }
+    slot!(0);
+    slot!(1);
+    slot!(2);
+    slot!(3);
+    slot!(4);
+    slot!(5);
+    kani::assert(false, "VERIF-BOUND: allocation size not announced by the harness");
+    kani::assume(false);
+    Err(AllocError)
+}
